@@ -7,6 +7,7 @@ dtml-return, so the statement covers every exit path.
 import DTML.Render
 import DTML.GenRender
 import DTML.Lemmas.Call
+import DTML.Lemmas.Stack
 set_option linter.unusedVariables false
 namespace DTML.Props.C08
 open DTML.Render
@@ -1156,5 +1157,112 @@ theorem gen_template_call_is_model (env : Env) (fuel id : Nat) (t : Template) (s
     (ht : env.templates[id]? = some t) :
     GenCall.callGen env fuel t [] .namespace [] st = callSub env (fuel + 1) id st :=
   Lemmas.Call.call_on_caller_namespace env fuel id t st ht
+
+/-! ### `_push` / `_pop` of the model are `TemplateDict._push` / `_pop` of the source
+
+`GenStack.initGen`, `pushGen`, `popGen` are regenerated on every run from `TemplateDict.__init__`, `_push`, `_pop`
+(harness/trans_stack.py).  The source keeps the data sources in `_data` with the TOP LAST; the model's `St.stack` has the TOP
+FIRST: `GenStack.absStack td = td.data.reverse` is the abstraction, `GenStack.tdOf st` the TemplateDict a state stands for. -/
+
+open DTML.GenStack in
+/-- `TemplateDict()` is the empty namespace at level 0 (what `dtml-with only` and a top-level call start from) -/
+theorem gen_init_is_model :
+    absStack initGen = ({} : St).stack ∧ initGen.level = ({} : St).level ∧ classLevelGen = ({} : St).level := by
+  decide
+
+open DTML.GenStack in
+/-- `md._push(f)` is `f :: stack` -/
+theorem gen_push_is_model (self : TD) (f : Frame) :
+    absStack (pushGen self f) = push f (absStack self) ∧ (pushGen self f).level = self.level := by
+  simp [absStack, pushGen, push]
+
+open DTML.GenStack in
+/-- `md._pop(k)` hands back the top and is `stack.drop k`, for every `k` up to the size of a non-empty namespace (every
+pop of the engine follows as many pushes).  Past the size the source does something else (see `Lemmas/Stack.lean`). -/
+theorem gen_pop_is_model (self : TD) (k : Nat) (hk : k ≤ self.data.length) (hne : 0 < self.data.length) :
+    ∃ r td', popGen self (k : Int) = some (r, td') ∧ (absStack self).head? = some r ∧
+      absStack td' = popN k (absStack self) ∧ td'.level = self.level := by
+  cases hl : self.data.getLast? with
+  | none => rw [List.getLast?_eq_none_iff] at hl; rw [hl] at hne; exact absurd hne (by decide)
+  | some r =>
+    refine ⟨r, { self with data := self.data.take (self.data.length - k) }, ?_, ?_, ?_, ?_⟩
+    · simp only [popGen, Lemmas.Stack.pyGet_last, hl, Lemmas.Stack.pySliceSet_cut self.data k hk]
+    · simp only [absStack, List.head?_reverse, hl]
+    · simp only [absStack, popN, Lemmas.Stack.reverse_take_sub]
+    · rfl
+
+open DTML.GenStack in
+/-- the hypotheses of `gen_pop_is_model` are satisfiable, and needed: `_pop()` of an empty namespace is an IndexError -/
+example : (2 : Nat) ≤ (TD.mk [.bad, .dict []] 0).data.length ∧ 0 < (TD.mk [.bad, .dict []] 0).data.length := by decide
+open DTML.GenStack in
+example : popGen initGen popDefaultGen = none := by decide
+
+open DTML.GenStack in
+/-- pushes followed by one pop of as many: the TemplateDict is as before -/
+theorem gen_push_pop_restores (self : TD) (fs : List Frame) (hne : fs ≠ []) :
+    (popGen (fs.foldl pushGen self) (fs.length : Int)).map (·.2) = some self := by
+  have hd : ∀ (fs : List Frame) (td : TD), (fs.foldl pushGen td).data = td.data ++ fs ∧ (fs.foldl pushGen td).level = td.level := by
+    intro fs
+    induction fs with
+    | nil => intro td; simp
+    | cons f t ih => intro td; simp [List.foldl_cons, ih, pushGen]
+  have hlen : 0 < fs.length := List.length_pos_iff.mpr hne
+  obtain ⟨r, td', h1, _, h3, h4⟩ := gen_pop_is_model (fs.foldl pushGen self) fs.length
+    (by rw [(hd fs self).1]; simp) (by rw [(hd fs self).1]; simp; omega)
+  rw [h1]
+  simp only [Option.map_some, Option.some.injEq]
+  have h5 : td'.data.reverse = self.data.reverse := by
+    have := h3
+    simp only [absStack, popN, (hd fs self).1, List.reverse_append] at this
+    rw [this, ← List.length_reverse, List.drop_left]
+  have h6 : td'.data = self.data := by simpa using congrArg List.reverse h5
+  cases td' with
+  | mk d l =>
+    cases self with
+    | mk d0 l0 =>
+      simp only [(hd fs (TD.mk d0 l0)).2] at h4
+      simp_all
+
+open DTML.GenStack in
+/-- `pres_push_pop` stated with the operations of the source: a data source pushed by `_push`, something that preserves
+the namespace, `_pop()` (with the default of the source) - the namespace is as it was -/
+theorem gen_pres_push_pop (st st' : St) (f : Frame)
+    (h : Pres { st with stack := absStack (pushGen (tdOf st) f) } st') :
+    ∃ r td', popGen (tdOf st') popDefaultGen = some (r, td') ∧ Pres st { st' with stack := absStack td' } := by
+  have hs : absStack (pushGen (tdOf st) f) = f :: st.stack := by simp [absStack, pushGen, tdOf]
+  rw [hs] at h
+  have hlen : 0 < (tdOf st').data.length := by
+    have := congrArg List.length h.1
+    simp only [List.length_map, List.length_cons] at this
+    simp only [tdOf, List.length_reverse]; omega
+  obtain ⟨r, td', h1, _, h3, _⟩ := gen_pop_is_model (tdOf st') 1 hlen hlen
+  refine ⟨r, td', h1, ?_⟩
+  have h4 : absStack td' = st'.stack.drop 1 := by rw [h3]; simp [popN, absStack, tdOf]
+  rw [h4]
+  exact pres_push_pop st st' f h
+
+open DTML.GenStack in
+/-- ... and for several data sources popped at once (`md._pop(pushed)`) -/
+theorem gen_pres_push_popn (st st' : St) (fs : List Frame) (hne : fs ≠ [])
+    (h : Pres { st with stack := absStack (fs.reverse.foldl pushGen (tdOf st)) } st') :
+    ∃ r td', popGen (tdOf st') (fs.length : Int) = some (r, td') ∧ Pres st { st' with stack := absStack td' } := by
+  have hd : ∀ (gs : List Frame) (td : TD), absStack (gs.foldl pushGen td) = gs.reverse ++ absStack td := by
+    intro gs
+    induction gs with
+    | nil => intro td; simp
+    | cons g t ih => intro td; rw [List.foldl_cons, ih]; simp [pushGen, absStack]
+  have hs : absStack (fs.reverse.foldl pushGen (tdOf st)) = fs ++ st.stack := by
+    rw [hd]; simp [absStack, tdOf]
+  rw [hs] at h
+  have hl0 : 0 < fs.length := List.length_pos_iff.mpr hne
+  have hlen : fs.length ≤ (tdOf st').data.length := by
+    have := congrArg List.length h.1
+    simp only [List.length_map, List.length_append] at this
+    simp only [tdOf, List.length_reverse]; omega
+  obtain ⟨r, td', h1, _, h3, _⟩ := gen_pop_is_model (tdOf st') fs.length hlen (by omega)
+  refine ⟨r, td', h1, ?_⟩
+  have h4 : absStack td' = st'.stack.drop fs.length := by rw [h3]; simp [popN, absStack, tdOf]
+  rw [h4]
+  exact pres_push_popn st st' fs h
 
 end DTML.Props.C08
